@@ -192,7 +192,7 @@ def check(prop, tier):
                         ('git-empty-delete', '', b'diff --git a/f.c b/f.c\ndeleted file mode 100644\nindex e69de29..0000000\n', [None])):
                     for rev in (False,):
                         jobs.append({'id': len(jobs), 'ci': 0, 'c': 0, 'dialect': name, 'rev': rev, 'a': a, 'patch': patch.hex(), 'strip': 1, 'reverse': rev, 'fuzz': 0,
-                                     'allowed': allowed, 'name': 'f.c', 'nh': 0, 'ambiguous': False, 'kind': 'M', 'a_abs': a is None, 'b_abs': allowed == [None]})
+                                     'allowed': allowed, 'name': 'f.c', 'nh': 1, 'ambiguous': False, 'kind': 'M', 'a_abs': a is None, 'b_abs': allowed == [None]})
                 gj = gnu_diff_jobs(cases, seed(), 600 if tier == 'quick' else 5000)
                 for j in gj:
                     j['id'] = len(jobs); jobs.append(j)
